@@ -1400,6 +1400,11 @@ def num_method(ev, x: Num, name, args, kwargs, fr, node):
     if name in ("conj", "conjugate"):
         return x.like(sp.conjugate(x.expr), unit=x.unit)
     if name == "round":
+        if x.kind == "quantity" and x.unit is not None and x.unit != 1 and x.tag != "unit":
+            # a Quantity is rounded in the unit it is held in: (t / dt) with t in minutes and dt in seconds is a dimensionless
+            # Quantity in units of "min/s" (scale 60) and rounds to multiples of 60
+            u_ = x.unit
+            return x.like(round_term(sp.simplify(x.expr / u_)) * u_, unit=u_)
         return x.like(round_term(x.expr), unit=x.unit)
     if name == "copy":
         return x.like(x.expr, unit=x.unit, cls=x.cls, tag=x.tag)        # a new array object (in-place operators on it do not reach x)
